@@ -42,6 +42,7 @@ PF = gen.Profile(
     max_slots=8,
 )
 PF_WHOLE = replace(PF, subslot=False, odd_eff=False, chain=False, alap_task=True, max_slots=12)
+PF_UNEQ = replace(PF, unequal_teams=True, alternatives=False, max_tasks=6)
 
 
 def effort_violations(spec, obs, sc_idx=0):
@@ -149,4 +150,6 @@ def campaigns(tier):
                  describe="D1+D2: sub-slot efforts, odd efficiencies, chains, alternatives, project-level ALAP"),
         Campaign("whole", "hyp", evaluate=eval_project, strategy=lambda: gen.project_specs(PF_WHOLE), n=500 if q else 10000,
                  describe="D0+D2: whole-slot efforts, teams, task-level ALAP anchors"),
+        Campaign("unequal_teams", "hyp", evaluate=eval_project, strategy=lambda: gen.project_specs(PF_UNEQ), n=400 if q else 8000,
+                 describe="teams whose members differ in efficiency: same-instants clause only (amount clause undefined)"),
     ]
